@@ -258,7 +258,9 @@ class Checker:
                                  "block_range")
                 if st != "ok" or rng is None:
                     continue
-                key = (rng.depth, rng.start, rng.end)
+                # the same node range is examined again when its end points sit ON the block boundaries of the range
+                # parent instead of inside the blocks (the helpers read indices off these resolved positions)
+                key = (rng.depth, rng.start, rng.end, rp.depth == rng.depth, rng.to.depth == rng.depth)
                 if key in seen:
                     continue
                 seen.add(key)
